@@ -45,17 +45,32 @@ func fragmentingFileNamer() fileNamer {
 	return fileNamerFunc(fragmentFileName)
 }
 
+// dirMarker ends every fragment that names a directory. It is not part of the
+// base64url alphabet, so a directory can never have the name of the file of
+// another key (for example a 36-byte key, whose encoding is exactly one
+// fragment long, and a long key that starts with it), and the empty key gets a
+// non-empty file name.
+const dirMarker = "~"
+
 func fragmentFileName(key string) string {
 	encoded := base64.RawURLEncoding.EncodeToString([]byte(key))
+	if encoded == "" {
+		return dirMarker // the empty key
+	}
 	if len(encoded) <= 255 { // Common filesystem filename limit
 		return encoded
 	}
 
-	// Fragment the encoded string
+	// Fragment the encoded string; every fragment but the last is a directory
+	const step = fragmentSize - len(dirMarker)
 	var parts []string
-	for i := 0; i < len(encoded); i += fragmentSize {
-		end := min(i+fragmentSize, len(encoded))
-		parts = append(parts, encoded[i:end])
+	for i := 0; i < len(encoded); i += step {
+		end := min(i+step, len(encoded))
+		part := encoded[i:end]
+		if end < len(encoded) {
+			part += dirMarker
+		}
+		parts = append(parts, part)
 	}
 	return filepath.Join(parts...)
 }
@@ -67,9 +82,14 @@ func fragmentingFileNameKeyer() fileNameKeyer {
 var filepathSeparatorReplacer = strings.NewReplacer(
 	string(filepath.Separator),
 	"",
+	dirMarker,
+	"",
 )
 
 func fragmentedFileNameToKey(name string) (string, error) {
+	if name == dirMarker {
+		return "", nil // the empty key
+	}
 	// Check if the name contains path separators (i.e., is fragmented)
 	if strings.ContainsRune(name, filepath.Separator) {
 		// Handle fragmented path
